@@ -42,6 +42,11 @@ CHECKS = {
    text="The reference May(cfg, script) of L4Socks5 (command rule set incl. defaults / case / placeholders, credential filtering with fail-closed empty names, RFC 1928 method selection, RFC 1929 authentication) is enumerated exhaustively by TLC over all configuration x client-script pairs of the bounded grammar (17 640 in the quick tier); every pair is played against the real Socks5Handler (provisioned, Handle on a pipe, loopback target recording outbound connections) and TLC judges each observation: success reply or outbound effect only if May.",
    note="scripted client bytes; outbound effect observed as a TCP accept on the harness target or a success reply to ASSOCIATE; only the 'only' direction is judged",
    technique="TLA+ reference of SOCKS5 negotiation/authorisation; exhaustive TLC enumeration replayed on the real handler; trace validation"),
+
+ "C17": dict(level="model_checking", design="5 C17, 4.7",
+   text="TLC checks BoundLocal/BoundTotal on the token-bucket model of throttledConn.Read (wait for the batch on both limiters, then one underlying read) for 2 connections sharing a total limiter, and as a self-test that the bounds fail when the read precedes the wait. The real handler runs over instant-data connections for a TLC-enumerated grid (rate x burst x total limit none/equal/only x latency x reader buffer x 1-4 concurrent connections); every underlying read is stamped when served and TLC judges the timed traces against G1 (per connection), G2 (summed over the handler), G3 (latency) and G4 (stream intact) of L4ThrottleAbs.",
+   note="real time, ms resolution with 1 ms rounding slack; time zero is the instant the reader issued its first read; golang.org/x/time/rate trusted",
+   technique="TLA+ token-bucket model checked with TLC; timed trace validation of the real throttle handler"),
 }
 NA = {
 }
